@@ -7,12 +7,12 @@
 //!   commit                              build the database: `ok <iid,iid,...>`
 //!   explain <text~> <sexpr...>          EXPLAIN <text> through the real planner: `plan <rendered plan, newlines as " // ">`
 //!   query <mode> <text~> <sexpr...>     run the query: `ok <cols> <nrows> <rows>` | `err <class>`
-//! mode = bag | list:<k> (first k columns are the total ORDER BY key, rows compared as a sequence) | count
+//! mode = bag | list (exact sequence) | list:<i,j> (key columns; ties compared as bags) | count (row count only)
 //! text: spaces are written `~`.  props: k=v,k=v with v = i<int> | s:<alnum> | bt | bf
 use super::cygen;
 use super::{State, StreamDef, no_child};
 use crate::rng::Rng;
-use nervusdb_core::query::{Params, Row, Value, WriteableGraph, prepare};
+use nervusdb_core::query::{ExecuteOptions, Params, Row, Value, WriteableGraph, prepare};
 use nervusdb_core::{Db, GraphSnapshot, PropertyValue};
 use std::io::Write;
 
@@ -97,6 +97,12 @@ pub fn build_db(buf: &GraphBuf) -> Result<(tempfile::TempDir, Db, Vec<u32>), Str
     Ok((dir, db, ids))
 }
 
+/// the wall-clock soft timeout is switched off (results must not depend on machine load); the row / collection
+/// limits keep their defaults
+pub fn exec_params() -> Params {
+    Params::with_execute_options(ExecuteOptions { soft_timeout_ms: 0, ..ExecuteOptions::default() })
+}
+
 pub fn unescape_text(t: &str) -> String {
     t.replace('~', " ")
 }
@@ -138,7 +144,13 @@ pub fn fmt_value<S: GraphSnapshot>(snap: &S, v: &Value) -> String {
             format!("R{}:{}:{}", e.src, snap.resolve_rel_type_name(e.rel).unwrap_or_else(|| format!("#{}", e.rel)), e.dst)
         }
         Value::Relationship(r) => format!("R{}:{}:{}", r.key.src, r.rel_type, r.key.dst),
-        Value::List(xs) => format!("[{}]", xs.iter().map(|x| fmt_value(snap, x)).collect::<Vec<_>>().join("/")),
+        // lists reach a result only through collect(): their element order follows the (unspecified) row
+        // order, so they are printed as multisets
+        Value::List(xs) => {
+            let mut es: Vec<String> = xs.iter().map(|x| fmt_value(snap, x)).collect();
+            es.sort();
+            format!("[{}]", es.join("/"))
+        }
         Value::Path(p) => format!(
             "P{}",
             p.nodes.iter().map(|n| n.to_string()).collect::<Vec<_>>().join(">")
@@ -158,13 +170,15 @@ pub fn canon_rows<S: GraphSnapshot>(snap: &S, mode: &str, rows: &[Row]) -> Strin
     if mode == "bag" {
         enc.sort();
     }
-    // list:<k>: the first k columns are a total ORDER BY key over the projected columns; rows with equal
-    // keys are identical up to the remaining columns, which are sorted within the tie group
-    if let Some(k) = mode.strip_prefix("list:").and_then(|k| k.parse::<usize>().ok()) {
+    // list: exact sequence.  list:<i,j,..>: the listed result columns are the ORDER BY key; rows with equal keys
+    // form a tie group whose members are compared as a bag (sorted here)
+    if let Some(ks) = mode.strip_prefix("list:") {
+        let idx: Vec<usize> = ks.split(',').filter_map(|k| k.parse::<usize>().ok()).collect();
+        let key = |r: &Vec<String>| idx.iter().map(|i| r.get(*i).cloned().unwrap_or_default()).collect::<Vec<_>>();
         let mut i = 0;
         while i < enc.len() {
             let mut j = i + 1;
-            while j < enc.len() && enc[j].iter().take(k).eq(enc[i].iter().take(k)) {
+            while j < enc.len() && key(&enc[j]) == key(&enc[i]) {
                 j += 1;
             }
             enc[i..j].sort();
@@ -218,7 +232,7 @@ impl State for S {
                     Ok(p) => p,
                     Err(e) => return err_line(&e.to_string()),
                 };
-                let params = Params::new();
+                let params = exec_params();
                 let rows: Result<Vec<Row>, _> = prepared.execute_streaming(&snap, &params).collect();
                 match rows {
                     Ok(rows) => canon_rows(&snap, mode, &rows),
